@@ -220,6 +220,7 @@ def m_meta(c, binp, tier):
 
 
 def m_parts(c, binp, tier):
+    data_env()      # VERIF_DICT
     c.add_model(run_model("%s-parts" % c.prop, "MC_Parts", {"MaxV": 4 if tier == "quick" else 5},
                           ["EqualsParse", "ValueOK", "PartsRoundTrip", "OrderIrrelevant", "EmitCase"], binp=binp, workers=10))
 
@@ -520,6 +521,7 @@ def C13(tier, seed):
     m_long(c, binp, tier)
     m_locale(c, binp, tier, modes=("loc",))
     m_iter(c, binp, tier)
+    macro_values(c, tier)          # a Locale built by locale! converts to the LanguageIdentifier its literal parses to
     return c.finish(rule="every language-identifier case also through Locale (identical id, no extensions, same text, conversions both ways, AsRef); every accept-zone locale case: id = LanguageIdentifier of the text before the first singleton",
                     assumptions=ASSUME_COMMON, exhaustive=True)
 
